@@ -79,6 +79,7 @@ class CellDict(dict):
             if key not in wl[0]: wl[0][key] = dict.get(self, k, _MISSING)
         return dict.pop(self, k, *d)
 
+_V0_INHERENT = re.compile(r'(?<![\w>])<([A-Za-z_][\w:]*)>::')      # not the generic-argument list of a path (LookupTable<T>::select)
 class Region:
     def __init__(self, name, size=None, zero=False, kind="mem", wl=None):
         self.name, self.size, self.zero, self.kind = name, size, zero, kind
@@ -661,6 +662,9 @@ class LSym:
         if name in getattr(self.mod, "ambiguous", ()): raise Unsupported("symbol %s is defined differently in two linked modules" % name)
         name = self.mod.aliases.get(name, name)
         self.calls[name] = self.calls.get(name, 0) + 1
+        if comment and "<" in comment:
+            # the nightly (v0) demangling writes inherent methods as <path::Type>::method; the interceptor patterns use path::Type::method
+            comment = _V0_INHERENT.sub(r'\1::', comment)
         for pat, f in self.intercept:
             if re.search(pat, name) or (comment and re.search(pat, comment)):
                 return f(self, args, comment or name)
